@@ -1,0 +1,8 @@
+//go:build !verif
+
+package rib
+
+// verifTrace is a no-op unless the package is built with the "verif" build
+// tag, in which case it reports linearisation-point events to an installed
+// tracer (see verif_on.go).
+func verifTrace(string, ...any) {}
